@@ -928,7 +928,8 @@ def m_iter_anyall(E, st, fr, bi, callee, args, dest_ty):
         write_through(E, st, p, it_smash(E, st, it)) if type(p) is Pt and p.key is not None else None
     except Unsupported:
         pass
-    b = E.mkbool(st, val, ("anyall", (), (is_all,)))
+    src = it.d.get("src") if it.d["k"] == "slice" else None
+    b = E.mkbool(st, val, ("anyall", (), (is_all, src, args[1], fty, (fr.id, bi))))
     return ret1(b, st)
 
 
@@ -988,25 +989,32 @@ def m_collect(E, st, fr, bi, callee, args, dest_ty):
     n = it_len(E, st, it)
     # exact small case: run the iterator concretely when its length is a small constant
     c = st.const(n)
-    if c is not None and c <= 64:
+    if c is not None and c <= E.ctx.hooks.get('exact_collect_max', 64):
         items = []
         cur = it
-        s = st
+        s = st.copy() if c > 64 else st
         okk = True
-        for _ in range(c):
-            outs = [o for o in it_next(E, s, fr, bi, cur) if o[0] is not None]
-            if len(outs) != 1:
-                okk = False
-                break
-            item, cur, s = outs[0]
-            items.append(item)
+        elem = None
+        with pinned(E.ctx, n, it):
+            for k_ in range(c):
+                with pinned(E.ctx, cur, elem, *items[:64]):
+                    outs = [o for o in it_next(E, s, fr, bi, cur) if o[0] is not None]
+                if len(outs) != 1:
+                    okk = False
+                    break
+                item, cur, s = outs[0]
+                if type(item) is Pt:
+                    item = deref(E, s, item) if False else item
+                if c <= 64:
+                    items.append(item)
+                with pinned(E.ctx, item, elem):
+                    elem = item if elem is None else E.join_vals(s, elem, item)
         if okk:
-            if not items:
+            if elem is None:
                 return ret1(Sq(BOT, n, None, None), s)
-            elem = items[0]
-            for x in items[1:]:
-                elem = E.join_vals(s, elem, x)
-            return ret1(Sq(elem, n, {i: x for i, x in enumerate(items)}, None), s)
+            if c <= 64:
+                return ret1(Sq(elem, n, {i: x for i, x in enumerate(items)}, None), s)
+            return ret1(Sq(elem, n, None, None), s)
     with pinned(E.ctx, n, it):
         item = it_elem(E, st, fr, bi, it)
     return ret1(Sq(item if item is not None else BOT, n, None, None), st)
